@@ -481,5 +481,8 @@ M("r11-benign-import-list-order", "C06", None, "client_generators/input_types.py
 M("r11-literal-not-imported", "C05", "C04.R20", "client_generators/result_types.py", "[OPTIONAL, UNION, ANY, LIST, LITERAL, ANNOTATED], TYPING_MODULE", "[OPTIONAL, UNION, ANY, LIST, ANNOTATED], TYPING_MODULE")
 M("r11-exported-unfiltered-enums", "C09", "C09.R6", "client_generators/enums.py", "self._generated_public_names = [class_def.name for class_def in class_defs]", "self._generated_public_names = [class_def.name for class_def in self._class_defs]")
 M("r11-benign-exported-names-loop", "C09", None, "client_generators/enums.py", "        self._generated_public_names = [class_def.name for class_def in class_defs]\n", "        names = [class_def.name for class_def in class_defs]\n        self._generated_public_names = names\n")
+M("r12-unpacked-not-accumulated", "C08", "C04.R21", PKF, "        self._unpacked_fragments = self._unpacked_fragments.union(\n            query_types_generator.get_unpacked_fragments()\n        )\n", "        self._unpacked_fragments = query_types_generator.get_unpacked_fragments()\n")
+M("r12-public-name-not-recorded", "C04", "C04.R21", RTF, "        self._public_names.append(class_name)\n\n        resolved_selection_set", "        resolved_selection_set")
+M("r12-benign-unpacked-ior", "C08", None, PKF, "        self._unpacked_fragments = self._unpacked_fragments.union(\n            query_types_generator.get_unpacked_fragments()\n        )\n", "        self._unpacked_fragments |= query_types_generator.get_unpacked_fragments()\n")
 
 from . import mutants_seeded  # noqa: F401,E402  (mutants generated from the confirmed seeded changes)
